@@ -125,6 +125,9 @@ func (s *recStore) Delete(k []byte) error {
 type Genesis struct {
 	Cctp   json.RawMessage `json:"cctp"`
 	Ledger LedgerGenesis   `json:"ledger"`
+	// WrapDecoder, when set, is applied to the chain's transaction decoder (C18 uses it to hand the *same* decoded
+	// transaction objects to several executions).
+	WrapDecoder func(sdk.TxDecoder) sdk.TxDecoder `json:"-"`
 }
 
 type Chain struct {
@@ -181,7 +184,11 @@ var (
 func New(gen Genesis) (c *Chain, err error) {
 	SetupSDK()
 	enc := makeEncoding()
-	app := baseapp.NewBaseApp("verif", log.NewNopLogger(), dbm.NewMemDB(), enc.txCfg.TxDecoder(), baseapp.SetChainID(ChainID))
+	dec := enc.txCfg.TxDecoder()
+	if gen.WrapDecoder != nil {
+		dec = gen.WrapDecoder(dec)
+	}
+	app := baseapp.NewBaseApp("verif", log.NewNopLogger(), dbm.NewMemDB(), dec, baseapp.SetChainID(ChainID))
 	app.SetInterfaceRegistry(enc.reg)
 	cctpKey := storetypes.NewKVStoreKey(types.StoreKey)
 	ledgKey := storetypes.NewKVStoreKey("ledger")
